@@ -1,6 +1,8 @@
 import LyModel.Lyb.ChunkWriter2
 import LyModel.Lyb.ChunkReader2
 import LyModel.Lyb.HashLemmas5
+import LyModel.Lyb.RevLemmas
+import LyModel.Lyb.JenkLemmas
 /-!
 # C01 (LYB part) — property theorems
 
@@ -122,5 +124,64 @@ theorem lyb_hash_siblings_total_partial (h : Nat → Nat → Nat) (sh : Shape h)
 set_option maxRecDepth 100000 in
 /-- non-vacuity of the hypothesis: the four siblings above differ pairwise -/
 example : ∀ s, s < 4 → ∀ p, p < s → ∃ j, j < LYB_HASH_BITS ∧ exHash p j ≠ exHash s j := by decide
+
+/-! ## module revision -/
+
+/-- **Revision packing.**  For every date 2000-01-01 … 2127-12-31 the 16-bit word `lyb_print_model` writes is turned
+back by `lyb_read_model` into the same `YYYY-MM-DD` string (and is non-zero, so it is not mistaken for "no revision"). -/
+theorem lyb_revision_pack_roundtrip (y m d : Nat) (hy : 2000 ≤ y ∧ y ≤ 2127) (hm : 1 ≤ m ∧ m ≤ 12)
+    (hd : 1 ≤ d ∧ d ≤ 31) :
+    unpackRev (packRev (some (dateStr y m d))) = some (dateStr y m d) := by
+  obtain ⟨a1, a2, a3⟩ := atoi_date y m d (by omega) (by omega) (by omega)
+  have hoff : LYB_REV_YEAR_OFFSET = 2000 := rfl
+  obtain ⟨f0, f1, f2, f3⟩ := unpack_fields (y - 2000) m d (by omega) (by omega) (by omega)
+  have hs : (2 : Nat) ^ LYB_REV_YEAR_SHIFT = 512 := rfl
+  have ha : ((((y : Int) - (LYB_REV_YEAR_OFFSET : Nat)) * ((2 ^ LYB_REV_YEAR_SHIFT : Nat) : Int)) % 65536).toNat
+      = (y - 2000) * 2 ^ LYB_REV_YEAR_SHIFT := by
+    rw [hs, hoff]; omega
+  have hp : packRev (some (dateStr y m d))
+      = (((y - 2000) * 2 ^ LYB_REV_YEAR_SHIFT ||| m <<< LYB_REV_MONTH_SHIFT) % 65536 ||| d) % 65536 := by
+    simp only [packRev, a1, a2, a3, ha]
+  rw [hp]
+  generalize (((y - 2000) * 2 ^ LYB_REV_YEAR_SHIFT ||| m <<< LYB_REV_MONTH_SHIFT) % 65536 ||| d) % 65536 = v at *
+  have hne : v ≠ 0 := by omega
+  have hyy : y - 2000 + 2000 = y := by omega
+  rw [unpackRev, if_neg hne, f1, f2, f3, hoff, hyy]
+
+/-- non-vacuity and the shape of the word: 2019-02-28 packs to `19·512 + 2·32 + 28` -/
+example : packRev (some (dateStr 2019 2 28)) = 9820 ∧ unpackRev 9820 = some (dateStr 2019 2 28)
+    ∧ dateStr 2019 2 28 = [50, 48, 49, 57, 45, 48, 50, 45, 50, 56] := by decide
+
+/-- outside 2000 … 2127 the format cannot hold the year (7 bits, offset 2000): 2128-01-01 comes back as 2000-01-01 and
+1999-12-31 as 2127-12-31 — a limit of the format, excluded from `lyb_revision_pack_roundtrip` (DESIGN §5 C01) -/
+theorem lyb_revision_pack_range_fails :
+    ¬ ∀ y m d, 1 ≤ y → y ≤ 9999 → 1 ≤ m → m ≤ 12 → 1 ≤ d → d ≤ 31 →
+        unpackRev (packRev (some (dateStr y m d))) = some (dateStr y m d) := by
+  intro H
+  have := H 2128 1 1 (by decide) (by decide) (by decide) (by decide) (by decide) (by decide)
+  revert this
+  decide
+
+example : unpackRev (packRev (some (dateStr 1999 12 31))) = some (dateStr 2127 12 31) := by decide
+
+/-! ## Jenkins one-at-a-time -/
+
+/-- **The byte step is injective in the running hash** (`h += b; h += h << 10; h ^= h >> 6`), proved algebraically:
+adding a constant is a bijection, `h + (h << 10) = h · 1025` with `1025 · 3222273025 ≡ 1 (mod 2³²)`, and
+`h ^ (h >> 6)` is undone by iteration.  The shift amounts are the ones extracted from `hash_table.c`. -/
+theorem absorb_byte_injective (b : UInt8) (h1 h2 : H32) (e : jStep h1 b = jStep h2 b) : h1 = h2 :=
+  jMix_injective _ _ _ e
+
+/-- consequently a whole `lyht_hash_multi` call (absorbing a key, or the final avalanche for the empty key) never
+merges two running hashes: the 32-bit state carries the prefix injectively, collisions arise only from the
+truncation to `LYB_HASH_BITS - 1 - collision_id` bits and from different keys -/
+theorem hash_multi_state_injective (key : Bytes) (h1 h2 : H32) (e : hashMulti h1 key = hashMulti h2 key) : h1 = h2 := by
+  simp only [hashMulti] at e
+  split at e
+  · exact jFin_injective _ _ e
+  · exact foldl_jStep_injective key _ _ e
+
+/-- non-vacuity / known answer: one-at-a-time hash of "hello" -/
+example : (lyhtHash [104, 101, 108, 108, 111]).toNat = 3372029979 := by decide
 
 end LyModel.Props.C01Lyb
